@@ -533,7 +533,7 @@ pub fn run(cfg: &Config) -> i32 {
 	let shards = 64usize;
 
 	// generated documents with empty containers, duplicates and nesting
-	let n = cfg.budget(120_000, 5_000_000);
+	let n = cfg.budget(600_000, 10_000_000);
 	let rep = parallel(cfg.threads, shards, |i| {
 		let mut rep = Report::new();
 		let mut rng = Rng::new(seed).fork(0xc11 + i as u64);
@@ -616,7 +616,7 @@ pub fn run(cfg: &Config) -> i32 {
 	}
 
 	// conversions with a wrong-kind value planted at every position
-	let n = cfg.budget(20_000, 1_000_000);
+	let n = cfg.budget(100_000, 2_000_000);
 	let rep = parallel(cfg.threads, shards, |i| {
 		let mut rep = Report::new();
 		let mut rng = Rng::new(seed).fork(0xc11c + i as u64);
